@@ -901,13 +901,27 @@ func c08NestedProbes(rep *Report) {
 		rep.Eval("probe:"+in, true, "probe")
 	}
 	// 2. whitespace next to punctuation in the selector of a nested ruleset
-	for _, in := range []string{"a{b ,c{}}", "a{b > c{}}"} {
+	var nestedWs []string
+	for _, c := range []string{",", ">", "+", "~"} {
+		nestedWs = append(nestedWs, "a{b "+c+"c{}}", "a{b"+c+" c{}}", "a{b "+c+" c{}}", "a{b\n"+c+"\t c{}}", "a{#b "+c+" .c{}}", "a{& "+c+" c{}}")
+	}
+	nestedWs = append(nestedWs, "a{b[ x = y ]{}}", "a{b[ x ]{}}", "a{[ x=\"y\" ] , c{}}", "a{b [ x ] > c[ y ]{}}")
+	for _, in := range nestedWs {
 		units, _, ok := c08RunParser([]byte(in), false)
 		bad := !ok || len(units) < 2 || units[1].gt != css.BeginRulesetGrammar
 		if !bad {
-			for _, v := range units[1].vals {
-				if v.tt == css.WhitespaceToken {
+			// no whitespace next to a combinator or inside [ ]; "b [" keeps its single space
+			inAttr := false
+			vs := units[1].vals
+			for i, v := range vs {
+				comb := func(t c07CssTok) bool { return len(t.text) == 1 && strings.IndexByte(",>+~", t.text[0]) >= 0 }
+				if v.tt == css.WhitespaceToken && (inAttr || i == 0 || i+1 == len(vs) || comb(vs[i-1]) || comb(vs[i+1])) {
 					bad = true
+				}
+				if v.tt == css.LeftBracketToken {
+					inAttr = true
+				} else if v.tt == css.RightBracketToken {
+					inAttr = false
 				}
 			}
 		}
